@@ -11,6 +11,7 @@ package main
 
 import (
 	"bufio"
+	"encoding/binary"
 	"fmt"
 	"os"
 	osexec "os/exec"
@@ -48,6 +49,7 @@ var (
 	tainted  bool         // an op outside the property's quantifier happened (or a failure was already reported)
 	dead     bool         // a PANIC/TIMEOUT happened: the segment may be half-written, the history ends
 	detached map[int]bool // slots unlinked by a bare RemoveFromUHash and not yet re-added
+	expirable map[int]bool // records of .PASSWDS the harness aged (op expire): the registration-time sweep kills them
 	fresh    bool         // reset, and no load yet: HashHead is all zero, every op is outside the quantifier
 )
 
@@ -563,7 +565,10 @@ func writeFile() {
 		buf[i*rec] = 0x53
 		buf[i*rec+1] = 0x10
 		copy(buf[i*rec+off:], id[:])
+		// logged in just now: not expirable (op `expire` ages single records)
+		binary.LittleEndian.PutUint32(buf[i*rec+lastLoginOffset:], uint32(types.NowTS()))
 	}
+	expirable = map[int]bool{}
 	if fileTorn {
 		buf = append(buf, make([]byte, 100)...)
 	}
@@ -653,7 +658,39 @@ func step(line string, label string) (out string, idx int) {
 			label = "lookupall"
 		}
 		post = func(i int) { judgeLookupAll(i, res) }
-	case op == "register" && len(ws) == 3 && (ws[2] == "0" || ws[2] == "1"):
+	case op == "expire" && len(ws) == 2:
+		// age record k of .PASSWDS (LastLogin = 1970): ptt.tryCleanUser will kill it. No effect on the index.
+		k, ok := parseInt(ws[1])
+		if !ok || k < 0 {
+			break
+		}
+		withDump = false
+		res = "ok"
+		if !fileNone && k < len(fileIDs) {
+			if f, err := os.OpenFile(env.Path(".PASSWDS"), os.O_WRONLY, 0o600); err == nil {
+				var b [4]byte
+				binary.LittleEndian.PutUint32(b[:], 1)
+				_, _ = f.WriteAt(b[:], int64(k)*int64(ptttype.USEREC_RAW_SZ)+int64(lastLoginOffset))
+				f.Close()
+				expirable[k] = true
+			}
+		}
+	case op == "register" && (len(ws) == 3 || (len(ws) == 4 && ws[3] == "sweep" && ws[2] == "0")) && (ws[2] == "0" || ws[2] == "1"):
+		sweep := len(ws) == 4
+		if sweep {
+			// the hourly sweep of expired accounts is due (no .fresh): SetupNewUser runs it when no slot is free.
+			// Only with a complete, present .PASSWDS (tryCleanUser dereferences the record it could not read).
+			if fileNone || fileTorn || len(fileIDs) != MAX {
+				break
+			}
+			_ = os.Remove(ptttype.FN_FRESH)
+			defer func() { _ = os.WriteFile(ptttype.FN_FRESH, []byte("fresh"), 0o600) }()
+		}
+		snapHead, snapNext := cache.Shm.Shm.HashHead, cache.Shm.Shm.NextInHash
+		wasExpirable := map[int]bool{}
+		for k := range expirable {
+			wasExpirable[k] = true
+		}
 		// ptt.SetupNewUser, the only caller of SetUserID; `1`: .PASSWDS is away while the call runs (the write of the new
 		// record fails after the slot was assigned).
 		id, ok := parseID(ws[1])
@@ -710,8 +747,8 @@ func step(line string, label string) (out string, idx int) {
 		}
 		got := 0
 		for k := 0; k < MAX; k++ {
-			if before[k] != s.Userid[k] {
-				got = k + 1
+			if before[k] != s.Userid[k] && (got == 0 || s.Userid[k] == id) {
+				got = k + 1 // the slot that now holds the id (else: some slot that changed)
 			}
 		}
 		if !dead {
@@ -720,6 +757,9 @@ func step(line string, label string) (out string, idx int) {
 		rereadFile()
 		if label == "" {
 			label = "register:" + strings.Fields(res)[0]
+			if sweep {
+				label = fmt.Sprintf("register-sweep%d:", len(expirable)) + strings.Fields(res)[0]
+			}
 			if ns, _ := chainOf(refHash(&id)); len(ns) > 1 {
 				label += "-collides"
 			}
@@ -735,6 +775,11 @@ func step(line string, label string) (out string, idx int) {
 				want = "errwrite"
 			}
 			f := strings.Fields(res)
+			if sweep && !held && free < 0 && f[0] == "ok" && got > 0 && wasExpirable[got-1] && s.Userid[got-1] == id {
+				// the sweep released the slot of an account it killed and the registration used it: a legitimate outcome
+				// (the unchanged code refuses); whether the slot was released CORRECTLY is the structure oracle's business
+				free, want = got-1, "ok"
+			}
 			if f[0] != want {
 				fail(i, "register:result", fmt.Sprintf("SetupNewUser(%q) = %s, expected %s (held=%v, first free slot %d, write fault %v)", cstrOf(&id), f[0], want, held, free, fault))
 				return
@@ -742,6 +787,8 @@ func step(line string, label string) (out string, idx int) {
 			if want == "errexists" || want == "errinvaliduid" {
 				if got != 0 {
 					fail(i, "register:result", fmt.Sprintf("refused registration of %q changed Userid[%d]", cstrOf(&id), got-1))
+				} else if snapHead != s.HashHead || snapNext != s.NextInHash {
+					fail(i, "register:refused-changed-index", fmt.Sprintf("registration of %q was refused (%s) but HashHead/NextInHash differ from before (sweep due: %v)", cstrOf(&id), want, sweep))
 				}
 				return
 			}
@@ -1331,6 +1378,7 @@ func main() {
 		os.Exit(2)
 	}
 	detached = map[int]bool{}
+	expirable = map[int]bool{}
 	// a full table must not start the sweep of expired accounts (ptt.tryCleanUser): keep .fresh fresh
 	_ = os.WriteFile(ptttype.FN_FRESH, []byte("fresh"), 0o600)
 	run.Rule = "lookup-change-lookup triples (lookup of X, then remove / clear / rename / move / slot re-use / cold reload, then X again with no lookup in between; lookups and changes by this process or by a long-lived peer process on the same segment; the oracle makes no hidden calls: `lookupall` is a recorded op); histories reset;file;load(cold) then set / remove+add / search (stored, upper, lower, mixed case; absent; empty) / dosearch / getuserid / on-the-fly reload from a file agreeing with the live table / cold reload; ids drawn from families precomputed to collide in the 16-bit hash (incl. one family colliding with the empty id), case variants, ids with bytes after the NUL, unterminated 13-byte ids, invalid ids, full tables; first an enumeration of every chain position (length 1..5) x {remove+add, rename inside the family, rename away, clear}. Malformed stream (judged by the correspondence only): adds on linked slots, out-of-range slots and uids, poked pointers repaired by checkHash, disagreeing/torn/missing/over-long files, bad tokens. distinct = distinct op lines inside the quantifier"
